@@ -257,11 +257,24 @@ func checkMain(args []string) int {
 		path  string
 	}
 	var refs []caseRef
+	// at most maxViolReplays counterexamples are replayed per run (a hang costs 5 s each): distinct
+	// obligations first; the rest are listed as further counterexamples of an already confirmed kind
+	const maxViolReplays = 12
+	seenKey := map[string]int{}
+	nViolReplays, nViolSkipped := 0, 0
 	for _, v := range verdicts {
 		for i, o := range v.viol {
 			if i >= 3 {
 				break
 			}
+			// one replay per (obligation, scenario parameters): policies of one parameter set share it
+			key := o.Class + "|" + o.ID + "|" + fmt.Sprint(v.spec.Params) + "|" + v.spec.Func
+			if nViolReplays >= maxViolReplays || seenKey[key] >= 1 {
+				nViolSkipped++
+				continue
+			}
+			seenKey[key]++
+			nViolReplays++
 			path := writeReplay(prop, v, o)
 			cases = append(cases, &replayFile{Property: prop, Harness: v.spec.Name, Func: v.spec.Func, Pkg: v.spec.Pkg, IntMode: v.spec.Int, Obligation: withParams(o, v.spec), Repeat: v.spec.Repeat})
 			refs = append(refs, caseRef{v, o, false, path})
@@ -310,6 +323,12 @@ func checkMain(args []string) int {
 			}
 		} else {
 			r.v.incon = append(r.v.incon, fmt.Sprintf("SPURIOUS: [%s] %s sat in the encoding but not reproduced natively (end=%s fails=%v); model=%v", r.o.Class, r.o.ID, oc.End, oc.Fails, r.o.Model))
+		}
+	}
+	if nViolSkipped > 0 {
+		fmt.Printf("  (%d further counterexamples of the same kinds were not replayed)\n", nViolSkipped)
+		if exit == 0 {
+			exit = 2
 		}
 	}
 	for _, v := range verdicts {
